@@ -15,8 +15,8 @@ import (
 	"time"
 
 	"github.com/Factom-Asset-Tokens/factom"
-	"github.com/pegnet/pegnet/modules/grader"
 	_ "github.com/mattn/go-sqlite3"
+	"github.com/pegnet/pegnet/modules/grader"
 	"github.com/pegnet/pegnetd/config"
 	"github.com/pegnet/pegnetd/fat/fat2"
 	"github.com/pegnet/pegnetd/node"
@@ -177,9 +177,20 @@ func (r *Runner) StopNode() error {
 
 // DBSynced reads the committed synced height.
 func (r *Runner) DBSynced() int64 {
+	// a read can time out on a busy database (heavily loaded machine): that is no observation, try again
+	for attempt := 0; attempt < 6; attempt++ {
+		if s, ok := r.dbSyncedOnce(); ok {
+			return s
+		}
+		time.Sleep(50 * time.Millisecond)
+	}
+	return -2
+}
+
+func (r *Runner) dbSyncedOnce() (int64, bool) {
 	d, err := proj.Open(r.DBFile())
 	if err != nil {
-		return -2
+		return -2, false
 	}
 	defer d.Close()
 	s, err := d.Synced()
@@ -187,16 +198,16 @@ func (r *Runner) DBSynced() int64 {
 		if os.Getenv("VERIF_LOG") != "" {
 			fmt.Fprintln(os.Stderr, "DBSynced:", err)
 		}
-		return -2
+		return -2, false
 	}
-	return s
+	return s, true
 }
 
 // StepResult tells how an Advance ended.
 type StepResult struct {
 	OK     bool
-	Wedge  bool   // the same height was requested WedgeRepeat times without a commit
-	Dead   bool   // the sync loop returned
+	Wedge  bool // the same height was requested WedgeRepeat times without a commit
+	Dead   bool // the sync loop returned
 	Reason string
 }
 
@@ -236,30 +247,30 @@ func (r *Runner) Advance(h uint32, timeout time.Duration) StepResult {
 
 // Obs is the abstract state observed after a block (see proj).
 type Obs struct {
-	Synced       int64                       `json:"synced"`
-	Bal          map[string]map[string][]int `json:"bal"`
-	Outside      []string                    `json:"outside"`
-	Supply       map[string][]int            `json:"supply"`
-	Rates        map[string][]int            `json:"rates"`
-	Rated        bool                        `json:"rated"`
-	RatesN       int                         `json:"ratesN"`
-	RateDigests  map[string]string           `json:"rateDigests"`
-	Hist         []*proj.HistBatch           `json:"hist"`
-	Holding      []proj.Held                 `json:"holding"`
-	HoldingN     int                         `json:"holdingN"`
-	Rel          []proj.Rel                  `json:"rel"`
-	Bank         map[string]interface{}      `json:"bank"`
-	BankRows     int                         `json:"bankRows"`
-	Winners      []proj.Winner               `json:"winners"`
-	GradeRow     bool                        `json:"gradeRow"`
-	GradeVer     int                         `json:"gradeVer"`
-	SnapChanged  bool                        `json:"snapChanged"`
-	SnapCur      map[string]map[string][]int `json:"snapCur"`
-	SnapPast     map[string]map[string][]int `json:"snapPast"`
-	SyncVerRows  int                         `json:"syncVerRows"`
-	SyncVerAt    int64                       `json:"syncVerAt"`
-	Dump         map[string]string           `json:"dump"`
-	MintOther    map[string][]int            `json:"mintOther"` // MINT's non-zero balances in assets outside the universe
+	Synced      int64                       `json:"synced"`
+	Bal         map[string]map[string][]int `json:"bal"`
+	Outside     []string                    `json:"outside"`
+	Supply      map[string][]int            `json:"supply"`
+	Rates       map[string][]int            `json:"rates"`
+	Rated       bool                        `json:"rated"`
+	RatesN      int                         `json:"ratesN"`
+	RateDigests map[string]string           `json:"rateDigests"`
+	Hist        []*proj.HistBatch           `json:"hist"`
+	Holding     []proj.Held                 `json:"holding"`
+	HoldingN    int                         `json:"holdingN"`
+	Rel         []proj.Rel                  `json:"rel"`
+	Bank        map[string]interface{}      `json:"bank"`
+	BankRows    int                         `json:"bankRows"`
+	Winners     []proj.Winner               `json:"winners"`
+	GradeRow    bool                        `json:"gradeRow"`
+	GradeVer    int                         `json:"gradeVer"`
+	SnapChanged bool                        `json:"snapChanged"`
+	SnapCur     map[string]map[string][]int `json:"snapCur"`
+	SnapPast    map[string]map[string][]int `json:"snapPast"`
+	SyncVerRows int                         `json:"syncVerRows"`
+	SyncVerAt   int64                       `json:"syncVerAt"`
+	Dump        map[string]string           `json:"dump"`
+	MintOther   map[string][]int            `json:"mintOther"` // MINT's non-zero balances in assets outside the universe
 }
 
 func dense(kr *gen.Keyring, assets []string, names []string, b map[factom.FAAddress]map[string]uint64, rowsOnly bool) (map[string]map[string][]int, []string) {
